@@ -140,6 +140,9 @@ fn build_message(id: u32, typ: Typ, rs: Option<u32>, sender: &Option<String>, me
     if matches!(typ, Typ::Call | Typ::Signal) {
         msg.dynheader.response_serial = rs.and_then(NonZeroU32::new);
     }
+    // header flags (NO_REPLY_EXPECTED, NO_AUTO_START, ALLOW_INTERACTIVE_AUTHORIZATION) in any combination: RpcConn does
+    // not look at them; a rejected call is answered whatever they say
+    msg.flags = [0u8, 0, 0, 1, 2, 4, 3, 5, 7][(id % 9) as usize];
     msg.dynheader.sender = sender.clone();
     msg.body.push_param(id).unwrap();
     if big > 0 {
@@ -593,9 +596,9 @@ fn history(out: &mut Out, rng: &mut Prng, max_ops: usize) {
     let mut big_used = false;
     let profile = rng.below(4); // 0: mixed, 1: arrival heavy, 2: wait heavy, 3: response heavy
 
-    let mut new_arrival = |h: &mut Hist, rng: &mut Prng, big_used: &mut bool| -> usize {
+    let mut new_arrival = |h: &mut Hist, rng: &mut Prng, big_used: &mut bool, force: Option<(Typ, u32)>| -> usize {
         let id = h.arr.len() as u32 + 1;
-        let typ = match (profile, rng.below(10)) {
+        let typ = if let Some((t, _)) = force { t } else { match (profile, rng.below(10)) {
             (3, 0..=5) => {
                 if rng.chance(1, 2) {
                     Typ::Reply
@@ -607,8 +610,10 @@ fn history(out: &mut Out, rng: &mut Prng, max_ops: usize) {
             (_, 3..=5) => Typ::Signal,
             (_, 6..=7) => Typ::Reply,
             _ => Typ::Error,
-        };
-        let rs = if typ == Typ::Reply || typ == Typ::Error {
+        } };
+        let rs = if let Some((_, forced_rs)) = force {
+            Some(forced_rs)
+        } else if typ == Typ::Reply || typ == Typ::Error {
             let k = rng.below(unused_rs.len() as u64) as usize;
             Some(unused_rs.swap_remove(k))
         } else if rng.chance(1, 4) {
@@ -671,6 +676,10 @@ fn history(out: &mut Out, rng: &mut Prng, max_ops: usize) {
     };
 
     let mut blocked_waits = 0;
+    let mut late_replies = 0;
+    // serials reserved for the late-reply scenario (never handed to another arrival)
+    let mut unused_late: Vec<u32> = vec![pool[0].wrapping_add(100_000).max(1)];
+    unused_late.retain(|x| !pool.contains(x));
     while h.ops.len() < n_ops {
         let r = rng.below(100);
         let arrive_w = match profile {
@@ -683,7 +692,7 @@ fn history(out: &mut Out, rng: &mut Prng, max_ops: usize) {
                 0 => {
                     // several messages back-to-back in ONE write
                     let k = rng.range(2, 4) as usize;
-                    let idx: Vec<usize> = (0..k).map(|_| new_arrival(&mut h, rng, &mut big_used)).collect();
+                    let idx: Vec<usize> = (0..k).map(|_| new_arrival(&mut h, rng, &mut big_used, None)).collect();
                     let mut all = Vec::new();
                     for &i in &idx {
                         all.extend_from_slice(&h.arr[i].bytes);
@@ -696,7 +705,7 @@ fn history(out: &mut Out, rng: &mut Prng, max_ops: usize) {
                 }
                 1 if h.tr.wire.is_empty() => {
                     // a message in two writes; in between the client looks: nothing complete has arrived
-                    let i = new_arrival(&mut h, rng, &mut big_used);
+                    let i = new_arrival(&mut h, rng, &mut big_used, None);
                     let bytes = h.arr[i].bytes.clone();
                     let cut = rng.range(1, bytes.len() as u64 - 1) as usize;
                     h.write_peer(&bytes[..cut]);
@@ -715,7 +724,7 @@ fn history(out: &mut Out, rng: &mut Prng, max_ops: usize) {
                     h.arrived(i);
                 }
                 _ => {
-                    let i = new_arrival(&mut h, rng, &mut big_used);
+                    let i = new_arrival(&mut h, rng, &mut big_used, None);
                     let bytes = h.arr[i].bytes.clone();
                     if rng.chance(1, 6) && bytes.len() > 20 {
                         // two writes, nothing in between
@@ -729,6 +738,24 @@ fn history(out: &mut Out, rng: &mut Prng, max_ops: usize) {
                     h.arrived(i);
                 }
             }
+        } else if r < arrive_w + 3 && late_replies == 0 && h.tr.wire.is_empty() && !unused_late.is_empty() {
+            // a reply that comes LATE: the wait for it gives up first, the reply then arrives while the client does something
+            // else, and is asked for again afterwards
+            late_replies += 1;
+            let s = unused_late.pop().unwrap();
+            h.out.hit("late_reply_after_timed_out_wait");
+            h.op_wait(Consumer::Response(s));
+            let typ = if rng.chance(1, 2) { Typ::Reply } else { Typ::Error };
+            let i = new_arrival(&mut h, rng, &mut big_used, Some((typ, s)));
+            let bytes = h.arr[i].bytes.clone();
+            h.write_peer(&bytes);
+            h.arrived(i);
+            match rng.below(3) {
+                0 => h.op_refill_once(rng),
+                1 => h.op_refill_all(),
+                _ => h.op_try(Consumer::Signal),
+            }
+            h.op_try(Consumer::Response(s));
         } else if r < arrive_w + 20 {
             let want = rng.chance(1, 2);
             let k = pick_consumer(&h, rng, want);
